@@ -37,7 +37,7 @@ func init() { handlers["c13"] = c13 }
 
 var c13Letters = map[int][]rune{
 	1: []rune("abcdefghijklmnopqrstuvwxyz"),
-	2: []rune("éàñöжяλπ́ü"),       // 'à' = C3 A0, U+0301 = combining acute
+	2: []rune("éàñöжяλπ́ü"), // 'à' = C3 A0, U+0301 = combining acute
 	3: []rune("日本語だ文字漢デあ"), // 'だ' = E3 81 A0, U+3099 = combining voiced mark
 	4: []rune("😀🚀𝒳🎉𠀋"),
 }
@@ -208,11 +208,16 @@ func c13Timed(f func() []string) (out []string, term bool, panicked interface{})
 
 func c13SplitEvent(text string, pieces []string, term bool, unit string, limit, cpt int, api, tag string) Event {
 	valid := make([]bool, len(pieces))
+	pc := make([]int, len(pieces))
 	for i, p := range pieces {
 		valid[i] = utf8.ValidString(p)
+		pc[i] = utf8.RuneCountInString(strings.TrimSpace(p))
 	}
 	ranges, found := c13Locate(text, pieces)
-	return Event{"event": "Split", "t": c13RunsOf(text), "r": ranges, "valid": valid, "found": found, "term": term,
+	if !found {
+		pc = pc[:len(ranges)]
+	}
+	return Event{"event": "Split", "t": c13RunsOf(text), "r": ranges, "pc": pc, "valid": valid, "found": found, "term": term,
 		"unit": unit, "limit": limit, "cpt": cpt, "api": api, "tag": tag, "npieces": len(pieces)}
 }
 
@@ -348,7 +353,13 @@ func c13RunProfile(pr c13Profile, raw []byte, withChunkers bool) Result {
 		pr.Cpt = 4
 	}
 	mb := c13MaxBytes(pr.Unit, pr.Limit, pr.Cpt)
-	runs := c13Expand(pr.Prof, mb*7/2+17)
+	// total length between 2.0 and 4.2 times the maximum, varied by the profile so
+	// that the last remainder falls on both sides of the limit
+	h := pr.Limit
+	for _, sg := range pr.Prof {
+		h = h*31 + sg.Wl*7 + sg.Cw*3 + len(sg.Sep)
+	}
+	runs := c13Expand(pr.Prof, mb*(20+h%23)/10+h%7)
 	text := c13Render(runs)
 	tag := c13Tag(text)
 	cfg := c13SizeConfig(pr.Unit, pr.Limit, pr.Cpt)
